@@ -96,3 +96,6 @@ def run(ctx):
         x = G.gen_spec(ctx.rng.fork(), "C06", small=True)
         tw.append(G.add_boundary_twins(ctx.rng.fork(), x))
     G.process_results(ctx, eng, eng.run_specs(tw))
+    # --follow-links over link targets in every spelling (absolute through another link, with `..`, chains): one file = one replica
+    from . import links_rt
+    links_rt.follow_alias_check(ctx, ctx.pick(40, 500))
